@@ -8,7 +8,7 @@
 //! source→sink order) and returned work future `child`.
 //! Top-level outcomes: `P`, `R-` (unit), `RO` / `RE <e>` (try_for_each), `RV <items>` (collect Vec;
 //! item = `<j>` or `<j>:<idx>.<idx>`), `RK <items>` / `RF <e>` (collect Result).
-#![cfg(feature = "cfg-alloc")]
+#![cfg(feature = "co")]
 
 use std::cell::RefCell;
 use std::future::Future;
